@@ -8,6 +8,7 @@ ctx.tlc numbers its runs with a counter that is not thread-safe; tlc() below ser
 statements of ctx.tlc that use the counter (start of the call) and lets the TLC processes themselves
 run concurrently.
 """
+import os
 import threading
 import time
 from concurrent.futures import ThreadPoolExecutor
@@ -29,13 +30,15 @@ def tlc(ctx, *a, **kw):
         n0 = ctx._meta
         t = threading.Thread(target=call)
         t.start()
-        # ctx.tlc increments ctx._meta first and reads it twice within the next few statements
-        # (config file name, metadir); by the time the counter moved plus a grace period they are done
-        for _ in range(2000):
-            if ctx._meta != n0 or not t.is_alive():
+        # ctx.tlc increments ctx._meta, derives the run's config file name from it, writes that file and then
+        # derives the metadir name from ctx._meta once more.  Nobody else may touch the counter before that
+        # last read: wait until the config file of run n0+1 exists (the read follows immediately), plus a grace.
+        cfg = os.path.join(ctx.specdir, "run%d_%s" % (n0 + 1, a[1]))
+        for _ in range(12000):
+            if not t.is_alive() or (os.path.exists(cfg) and os.path.getsize(cfg) > 0):
                 break
             time.sleep(0.005)
-        time.sleep(0.15)
+        time.sleep(0.2)
     t.join()
     if "e" in box:
         raise box["e"]
@@ -50,3 +53,13 @@ def par(ctx, jobs, limit=None):
     with ThreadPoolExecutor(max_workers=n) as ex:
         futs = [ex.submit(j) for j in jobs]
         return [f.result() for f in futs]
+
+
+# Development aid (mutation trials on a loaded machine): PKV_ONLY=<substring>[,<substring>...] restricts a run to
+# the generator batches whose label contains one of the substrings ("random", "zero-time" name the extra jobs).
+# Never set by the registered commands.
+ONLY = [x for x in os.environ.get("PKV_ONLY", "").split(",") if x]
+
+
+def selected(label):
+    return not ONLY or any(x in label for x in ONLY)
